@@ -11,7 +11,7 @@ from vf import cst
 WS_CLASSES = ["none", "sp1", "spN", "tab", "nl", "nl_ind", "blank", "blankN", "blank_ws", "trail_nl"]
 LINE_COMMENT_CLASSES = ["eol_line", "own_line", "own_lines2", "own_line_blank_after", "own_line_blank_before"]
 BLOCK_OWN_CLASSES = ["eol_block", "own_block", "own_doc", "own_mblock", "own_mblock_lead"]
-MID_CLASSES = ["mid_block", "mid_doc", "mid_mblock", "mid_block_tight"]
+MID_CLASSES = ["mid_block", "mid_doc", "mid_mblock", "mid_block_tight", "mid_block2", "mid_block_then_line"]
 COMMENT_CLASSES = LINE_COMMENT_CLASSES + BLOCK_OWN_CLASSES + MID_CLASSES
 ALL_CLASSES = WS_CLASSES + COMMENT_CLASSES
 
@@ -127,6 +127,10 @@ def make_trivia(r: random.Random, cls: str, tag: str, indent: int):
         return " " + _block_comment(r, tag, multi=True, indent=indent) + " ", 1
     if cls == "mid_block_tight":
         return _block_comment(r, tag, tight=True), 1
+    if cls == "mid_block2":
+        return " " + _block_comment(r, tag) + " " + _block_comment(r, tag + "x") + " ", 2
+    if cls == "mid_block_then_line":
+        return " " + _block_comment(r, tag) + " " + _line_comment(r, tag + "x") + "\n" + ind, 2
     raise ValueError(cls)
 
 
